@@ -220,6 +220,32 @@ func c11Eval(c *fw.Ctx, k c11Case) (sig, desc string, nontrivial bool) {
 	if len(recs) != 1 || recs[0].Arch != ps.a || recs[0].T != t || !sameVal(recs[0].Src, want[ps.a].Vals[ps.j]) || !sameVal(recs[0].Dst, newv) {
 		return "C11/sum-diff/listing", fmt.Sprintf("sum-diff %s: perturbed archive %d t=%d (sum %v, dest %v) but listed %v", ctx, ps.a, t, want[ps.a].Vals[ps.j], newv, recs), true
 	}
+	// the second item's destination perturbed as well (its first selected slot): each item's section lists its own
+	// slot and nothing else - two lines in all
+	if ypath := filepath.Join(dbase, "it", "y", "sum.wsp"); k.Perturb%2 == 0 {
+		yb, _ := os.ReadFile(ypath)
+		if yf, perr := wsp.Parse(yb); perr == nil {
+			if yr, rerr := yf.Rings(); rerr == nil {
+				wy, _ := ExpSum(l, [][]wsp.Ring{ry}, k.Archive, k.From, until, k.Now)
+				done := false
+				for i := range wy {
+					if wy[i] == nil || len(wy[i].Vals) == 0 || done {
+						continue
+					}
+					ty := wy[i].Shape.From
+					yr[i][uint32(ty/int64(l.Archs[i].Step))%l.Archs[i].N] = wsp.Slot{T: uint32(ty), V: 55}
+					(&BFile{L: l, Rings: yr}).Write(ypath)
+					done = true
+					err, pn = RunCommand(k.Now, sd)
+					t2 := readAndRemove(out)
+					r2, _, _, bad2 := parseDiffLines(t2)
+					if c2 := classify(err, pn); c2 != "diff-found" || bad2 != "" || len(r2) != 2 || r2[0].Arch != ps.a || r2[0].T != t || r2[1].Arch != i || r2[1].T != ty || !sameVal(r2[1].Dst, 55) {
+						return "C11/sum-diff/listing-with-two-deviating-items", fmt.Sprintf("sum-diff %s: item x deviates at archive %d t=%d and item y at archive %d t=%d, but the run gives %s and lists %v %s", ctx, ps.a, t, i, ty, c2, r2, bad2), true
+					}
+				}
+			}
+		}
+	}
 	// a second session: one source file changes in one slot; sum-copy runs again on the (perturbed) destination
 	f2 := wsp.CloneRings(files[0])
 	a0 := l.Archs[ps.a]
